@@ -20,8 +20,14 @@ func probe(args []string) {
 		for i := 0; i < n; i++ {
 			opt := genOpts{allowHazards: true}
 			if len(p) > 3 {
-				d, _ := strconv.Atoi(p[3])
-				opt = genOpts{dangling: 1 + (i+d)%6}
+				if strings.HasPrefix(p[3], "s") {
+					k, _ := strconv.Atoi(p[3][1:])
+					nr, _ := strconv.Atoi(p[4])
+					opt = genOpts{sparse: sparseKinds[(k+i)%len(sparseKinds)], sparseNr: []int{nr}}
+				} else {
+					d, _ := strconv.Atoi(p[3])
+					opt = genOpts{dangling: 1 + (i+d)%6}
+				}
 			}
 			doc, di := genDoc(rr, opt)
 			docs = append(docs, docCase{name: fmt.Sprintf("gen-%d", i), doc: doc, hazards: di.hazards, desc: strings.Join(di.desc, ",")})
